@@ -1,15 +1,679 @@
 package redact
 
-// Replay/search harness for C15 (injected with -overlay, never written into /repo).
-// Formats are built from pieces so that the number of %w directives is known by construction;
-// the expected error is taken from the property statement.
+// Replay/search and bounded harness for C15 (injected with -overlay, never written into /repo).
+//
+// TestVerifReplayC15: quick search. Formats are built from pieces so that the number of %w directives is
+// known by construction; the expected error is taken from the property statement.
+//
+// TestVerifBoundedC15: systematic bounded check of the whole statement. Formats are all sequences of at
+// most 4 (VERIF_TIER=quick) / 5 (thorough) pieces over c15Pieces; for every format and every operand-list
+// length a family of operand lists is enumerated (see c15Lists). The oracle is written from the statement:
+//   - which operand a directive designates follows the documented fmt rules (sequential operands, explicit
+//     [n] indexes, missing operand, bad index): c15Slots;
+//   - returned error = operand of %w iff the format has exactly one %w and that operand holds an error;
+//   - text = Sprintf of the format in which the correctly used %w (the first %w, when its operand holds an
+//     error) is replaced by the same directive with verb v; all other %w are bad verbs ("%!w(" count);
+//   - for <= 1 %w: text with markers stripped and returned error = fmt.Errorf(...).Error() and its Unwrap();
+//   - the error hook (RegisterRedactErrorFn) does not change the returned error.
 
 import (
 	"encoding/json"
 	"errors"
 	"fmt"
+	"os"
+	"runtime"
+	"strings"
+	"sync"
+	"sync/atomic"
 	"testing"
 )
+
+// ---------------------------------------------------------------------------------------------------
+// reporting
+
+func c15Fail(t *testing.T, call, text string, got error, why string) {
+	out := fmt.Sprintf("(%q, %s)", text, c15ErrText(got))
+	m, _ := json.Marshal(map[string]string{"property": "C15", "call": call, "output": out, "why": why})
+	fmt.Printf("REPLAY-FAIL: %s\n", m)
+	t.Errorf("%s: %s: %s", call, why, out)
+}
+
+func c15ErrText(e error) (s string) {
+	if e == nil {
+		return "error(nil)"
+	}
+	defer func() {
+		if r := recover(); r != nil {
+			s = fmt.Sprintf("%T(nil pointer)", e)
+		}
+	}()
+	return fmt.Sprintf("%T(%q)", e, e.Error())
+}
+
+// ---------------------------------------------------------------------------------------------------
+// operand values
+
+// c15CustomErr: pointer error type with a cause; Error() on a nil receiver panics (as many real ones do).
+type c15CustomErr struct {
+	msg   string
+	cause error
+}
+
+func (e *c15CustomErr) Error() string {
+	if e.cause != nil {
+		return e.msg + ": " + e.cause.Error()
+	}
+	return e.msg
+}
+func (e *c15CustomErr) Unwrap() error { return e.cause }
+
+// c15SFErr: an error that is also a SafeFormatter (and a fmt.Formatter that prints the same characters, so
+// that the comparison with fmt.Errorf is meaningful). It shows the verb and the '+' flag it was given.
+type c15SFErr struct{ msg string }
+
+func (e *c15SFErr) Error() string { return e.msg }
+func (e *c15SFErr) SafeFormat(p SafePrinter, verb rune) {
+	p.SafeString("sf[")
+	p.SafeRune(SafeRune(verb))
+	if p.Flag('+') {
+		p.SafeRune('+')
+	}
+	p.SafeString("]")
+	p.UnsafeString(e.msg)
+}
+func (e *c15SFErr) Format(s fmt.State, verb rune) {
+	plus := ""
+	if s.Flag('+') {
+		plus = "+"
+	}
+	fmt.Fprintf(s, "sf[%c%s]%s", verb, plus, e.msg)
+}
+
+// c15ValErr: a non-pointer error type.
+type c15ValErr string
+
+func (e c15ValErr) Error() string { return string(e) }
+
+type c15Val struct {
+	name  string      // Go-like text of the operand
+	v     interface{} // operand given to HelperForErrorf / Sprintf
+	held  error       // the error the operand holds (directly or inside Safe/Unsafe), nil if none
+	plain interface{} // the operand without its Safe/Unsafe wrapper (given to fmt.Errorf)
+}
+
+const (
+	c15KErr = iota // errors.New
+	c15KInt        // int
+	c15KCustom
+	c15KSF
+	c15KTypedNil
+	c15KValErr
+	c15KSafeErr
+	c15KUnsafeErr
+	c15KNil
+	c15KString
+	c15KSafeInt
+	c15KUnsafeCustom
+	c15KSafeNil
+	c15NumKinds
+)
+
+const c15MaxPos = 9
+
+// c15Vals[pos][kind]: every position has its own error identities and texts.
+var c15Vals = func() [][]c15Val {
+	out := make([][]c15Val, c15MaxPos)
+	for p := 0; p < c15MaxPos; p++ {
+		vs := make([]c15Val, c15NumKinds)
+		e := errors.New(fmt.Sprintf("n%d", p))
+		vs[c15KErr] = c15Val{fmt.Sprintf("errors.New(\"n%d\")", p), e, e, e}
+		vs[c15KInt] = c15Val{fmt.Sprintf("%d", 100+p), 100 + p, nil, 100 + p}
+		ce := &c15CustomErr{msg: fmt.Sprintf("c%d", p), cause: errors.New(fmt.Sprintf("cause%d", p))}
+		vs[c15KCustom] = c15Val{fmt.Sprintf("&c15CustomErr{\"c%d\", errors.New(\"cause%d\")}", p, p), ce, ce, ce}
+		sf := &c15SFErr{fmt.Sprintf("f%d", p)}
+		vs[c15KSF] = c15Val{fmt.Sprintf("&c15SFErr{\"f%d\"}", p), sf, sf, sf}
+		var tn *c15CustomErr
+		vs[c15KTypedNil] = c15Val{"(*c15CustomErr)(nil)", tn, tn, tn}
+		ve := c15ValErr(fmt.Sprintf("v%d", p))
+		vs[c15KValErr] = c15Val{fmt.Sprintf("c15ValErr(\"v%d\")", p), ve, ve, ve}
+		se := errors.New(fmt.Sprintf("s%d", p))
+		vs[c15KSafeErr] = c15Val{fmt.Sprintf("Safe(errors.New(\"s%d\"))", p), Safe(se), se, se}
+		ue := errors.New(fmt.Sprintf("u%d", p))
+		vs[c15KUnsafeErr] = c15Val{fmt.Sprintf("Unsafe(errors.New(\"u%d\"))", p), Unsafe(ue), ue, ue}
+		vs[c15KNil] = c15Val{"nil", nil, nil, nil}
+		vs[c15KString] = c15Val{fmt.Sprintf("\"str%d\"", p), fmt.Sprintf("str%d", p), nil, fmt.Sprintf("str%d", p)}
+		vs[c15KSafeInt] = c15Val{fmt.Sprintf("Safe(%d)", 200+p), Safe(200 + p), nil, 200 + p}
+		uc := &c15CustomErr{msg: fmt.Sprintf("uc%d", p)}
+		vs[c15KUnsafeCustom] = c15Val{fmt.Sprintf("Unsafe(&c15CustomErr{\"uc%d\", nil})", p), Unsafe(uc), uc, uc}
+		vs[c15KSafeNil] = c15Val{"Safe(nil)", Safe(nil), nil, nil}
+		out[p] = vs
+	}
+	return out
+}()
+
+// ---------------------------------------------------------------------------------------------------
+// format pieces
+
+type c15Piece struct {
+	text  string
+	vText string // for a %w piece: the same directive with verb v
+	isW   bool
+	mode  int // 0: takes no operand, 1: takes the next operand, 2: explicit operand index idx (1-based)
+	idx   int
+}
+
+var c15Pieces = []c15Piece{
+	{"%w", "%v", true, 1, 0},
+	{"%v", "", false, 1, 0},
+	{"%d", "", false, 1, 0},
+	{"%[1]w", "%[1]v", true, 2, 1},
+	{"%[2]w", "%[2]v", true, 2, 2},
+	{"%[3]w", "%[3]v", true, 2, 3},
+	{"%[9]w", "%[9]v", true, 2, 9},
+	{"%+w", "%+v", true, 1, 0},
+	{"%10w", "%10v", true, 1, 0},
+	{"lit", "", false, 0, 0},
+	{"%%", "", false, 0, 0},
+	{"%!", "", false, 1, 0}, // verb '!': a bad verb that still takes an operand
+}
+
+const (
+	c15SlotNone    = -1 // the piece takes no operand
+	c15SlotMissing = -2 // no operand left
+	c15SlotBadIdx  = -3 // explicit index out of range
+)
+
+// c15Slots: which operand each piece designates for an operand list of length n, by the rules documented for
+// package fmt: directives take successive operands; [k] selects operand k and the following directives
+// continue with k+1; an index outside 1..n is a bad index (the directive takes nothing); a directive with no
+// operand left is reported as missing.
+func c15Slots(seq []int, n int, slots []int) {
+	arg := 0
+	for j, pi := range seq {
+		pc := &c15Pieces[pi]
+		switch pc.mode {
+		case 0:
+			slots[j] = c15SlotNone
+			continue
+		case 2:
+			if pc.idx < 1 || pc.idx > n {
+				slots[j] = c15SlotBadIdx
+				continue
+			}
+			arg = pc.idx - 1
+		}
+		if arg < n {
+			slots[j] = arg
+			arg++
+		} else {
+			slots[j] = c15SlotMissing
+		}
+	}
+}
+
+// ---------------------------------------------------------------------------------------------------
+// the oracle for one call
+
+type c15Stats struct {
+	cases, withW          int // law 1 and 2
+	errfCases, errfOneW   int // law 3
+	errfSkipped           int // law 3: inputs skipped because of the known %+w / int divergence
+	hookCases, hookActive int // law 4
+	manyW, manyWAllErr    int // law 5: formats with >= 3 %w; ... of which >= 3 %w operands hold errors
+	captured              int // cases in which an error is expected back
+	fails                 int
+}
+
+func (a *c15Stats) add(b *c15Stats) {
+	a.cases += b.cases
+	a.withW += b.withW
+	a.errfCases += b.errfCases
+	a.errfOneW += b.errfOneW
+	a.errfSkipped += b.errfSkipped
+	a.hookCases += b.hookCases
+	a.hookActive += b.hookActive
+	a.manyW += b.manyW
+	a.manyWAllErr += b.manyWAllErr
+	a.captured += b.captured
+}
+
+type c15Checker struct {
+	t       *testing.T
+	st      *c15Stats
+	hook    bool
+	maxFail int32
+	nfail   *int32 // shared by the workers
+}
+
+func (c *c15Checker) stop() bool { return atomic.LoadInt32(c.nfail) >= c.maxFail }
+
+var c15HookCalls, c15HookDepth int
+var c15HookInner = errors.New("inner")
+
+// c15Hook is an error-printing hook in the style of an error library: it prints the error, its cause
+// (through a nested Printf, which runs the hook again) and, at the outermost level, itself uses
+// HelperForErrorf (which recycles printers) while the outer call is in progress.
+func c15Hook(err error, p SafePrinter, verb rune) {
+	c15HookCalls++
+	c15HookDepth++
+	defer func() { c15HookDepth-- }()
+	if c15HookDepth == 1 {
+		_, _ = HelperForErrorf("nested %w", c15HookInner)
+	}
+	p.SafeString("H<")
+	p.SafeRune(SafeRune(verb))
+	p.UnsafeString(err.Error())
+	if c := errors.Unwrap(err); c != nil {
+		p.Printf(" cause=%v", c)
+	}
+	p.SafeString(">")
+}
+
+func c15Call(format string, vals []c15Val) string {
+	var b strings.Builder
+	fmt.Fprintf(&b, "HelperForErrorf(%q", format)
+	for _, v := range vals {
+		b.WriteString(", ")
+		b.WriteString(v.name)
+	}
+	b.WriteString(")")
+	return b.String()
+}
+
+func c15StripRef(s string) string {
+	return strings.ReplaceAll(strings.ReplaceAll(s, vS, ""), vE, "")
+}
+
+// check runs one call. seq/slots describe the format by construction; refFormat is the format in which the
+// first %w piece is replaced by its %v twin (used when that %w is correctly used).
+func (c *c15Checker) check(seq []int, slots []int, format, refFormat string, vals []c15Val) {
+	if c.stop() {
+		return
+	}
+	st := c.st
+	nW, firstW, errW := 0, -1, 0
+	for j, pi := range seq {
+		if c15Pieces[pi].isW {
+			if firstW < 0 {
+				firstW = j
+			}
+			nW++
+			if slots[j] >= 0 && vals[slots[j]].held != nil {
+				errW++
+			}
+		}
+	}
+	// "correctly used": the first %w of the format, designating an operand that holds an error
+	var firstHeld error
+	if firstW >= 0 && slots[firstW] >= 0 {
+		firstHeld = vals[slots[firstW]].held
+	}
+	var want error
+	if nW == 1 {
+		want = firstHeld
+	}
+	ref := format
+	badW := nW
+	if firstHeld != nil {
+		ref = refFormat
+		badW = nW - 1
+	}
+	args := make([]interface{}, len(vals))
+	for k := range vals {
+		args[k] = vals[k].v
+	}
+
+	hc := c15HookCalls
+	s, err := HelperForErrorf(format, args...)
+	hookRan := c15HookCalls > hc
+	text := string(s)
+
+	st.cases++
+	if nW > 0 {
+		st.withW++
+	}
+	if want != nil {
+		st.captured++
+	}
+	if nW >= 3 {
+		st.manyW++
+		if errW >= 3 {
+			st.manyWAllErr++
+		}
+	}
+	if c.hook {
+		st.hookCases++
+		if hookRan && want != nil {
+			st.hookActive++
+		}
+	}
+	bad := func(why string) {
+		if atomic.AddInt32(c.nfail, 1) > c.maxFail {
+			return
+		}
+		call := c15Call(format, vals)
+		if c.hook {
+			call += " /* with RegisterRedactErrorFn(c15Hook) */"
+		}
+		c15Fail(c.t, call, text, err, why)
+	}
+
+	// law 1 (and 4, 5): the returned error
+	if err != want {
+		switch {
+		case nW >= 3 && want == nil:
+			bad(fmt.Sprintf("the format has %d %%w directives, so no error may be returned (want nil)", nW))
+		case nW == 2 && want == nil:
+			bad("the format has two %w directives, so no error may be returned (want nil)")
+		case want == nil:
+			bad("the only %w has no operand holding an error (or there is no %w), so no error may be returned (want nil)")
+		default:
+			bad("exactly one %w whose operand holds an error: that error must be returned, got another value; want " + c15ErrText(want))
+		}
+		return
+	}
+	// law 2: the text
+	if n := strings.Count(text, "%!w("); n != badW {
+		bad(fmt.Sprintf("%d uses of %%w are incorrect (not the first %%w, or no error operand) and must each be reported as a bad verb %%!w(...); the text has %d such reports", badW, n))
+		return
+	}
+	if refText := string(Sprintf(ref, args...)); refText != text {
+		bad(fmt.Sprintf("text differs from Sprintf(%q, same operands) = %q (a correctly used %%w renders like %%v, every other %%w is a bad verb)", ref, refText))
+		return
+	}
+	// law 3: fmt.Errorf
+	if !c.hook && nW <= 1 {
+		// KNOWN DIVERGENCE (reported, not silently dropped): since Go 1.20 fmt.Errorf gives the flags of %w the
+		// meaning they have for %v ('+' becomes the struct-field flag), also when the %w is then reported as a
+		// bad verb; the library keeps '+' as the numeric sign flag. So for an int operand
+		// HelperForErrorf("%+w", 103) prints %!w(int=+103) where fmt.Errorf prints %!w(int=103). These inputs
+		// are skipped for the fmt.Errorf comparison only (they are still compared with Sprintf above).
+		if firstW >= 0 && c15Pieces[seq[firstW]].text == "%+w" && slots[firstW] >= 0 {
+			if _, isInt := vals[slots[firstW]].plain.(int); isInt {
+				st.errfSkipped++
+				return
+			}
+		}
+		st.errfCases++
+		if nW == 1 {
+			st.errfOneW++
+		}
+		plain := make([]interface{}, len(vals))
+		for k := range vals {
+			plain[k] = vals[k].plain
+		}
+		fe := fmt.Errorf(format, plain...)
+		if msg := fe.Error(); msg != c15StripRef(text) || msg != s.StripMarkers() {
+			bad(fmt.Sprintf("text with markers stripped differs from fmt.Errorf(same format, operands without Safe/Unsafe).Error() = %q", msg))
+			return
+		}
+		if un := errors.Unwrap(fe); un != err {
+			bad("returned error differs from errors.Unwrap(fmt.Errorf(...)) = " + c15ErrText(un))
+			return
+		}
+	}
+}
+
+// ---------------------------------------------------------------------------------------------------
+// enumeration
+
+// c15Lists enumerates the operand lists for one format and one list length n (slots already computed):
+//
+//	A. every assignment of {errors.New error, int} to the positions designated by a %w, the other positions
+//	   holding errors.New errors (all of distinct identity);
+//	B. for every position designated by a %w, every other kind of operand (custom pointer error with a cause,
+//	   error that is a SafeFormatter, typed nil error pointer, non-pointer error, Safe(err), Unsafe(err), nil,
+//	   string, Safe(int), Unsafe(custom err), Safe(nil)) with the other %w positions holding (B1) errors and
+//	   (B2) ints;
+//	C. the positions designated only by other directives all holding ints / all nil / all Safe(err), the %w
+//	   positions holding errors.
+func c15Lists(seq, slots []int, n int, kinds []int, visit func(vals []c15Val)) {
+	var wPos, oPos []int
+	isW := make([]bool, n)
+	isO := make([]bool, n)
+	for j, pi := range seq {
+		if slots[j] >= 0 && c15Pieces[pi].isW {
+			isW[slots[j]] = true
+		}
+	}
+	for j, pi := range seq {
+		if slots[j] >= 0 && !c15Pieces[pi].isW && !isW[slots[j]] {
+			isO[slots[j]] = true
+		}
+	}
+	for p := 0; p < n; p++ {
+		if isW[p] {
+			wPos = append(wPos, p)
+		} else if isO[p] {
+			oPos = append(oPos, p)
+		}
+	}
+	vals := make([]c15Val, n)
+	reset := func() {
+		for p := 0; p < n; p++ {
+			vals[p] = c15Vals[p][c15KErr]
+		}
+	}
+	// A
+	for m := 0; m < 1<<uint(len(wPos)); m++ {
+		reset()
+		for b, p := range wPos {
+			if m&(1<<uint(b)) != 0 {
+				vals[p] = c15Vals[p][c15KInt]
+			}
+		}
+		visit(vals)
+	}
+	// B
+	for _, p := range wPos {
+		for _, k := range kinds {
+			reset()
+			vals[p] = c15Vals[p][k]
+			visit(vals)
+			if len(wPos) > 1 {
+				for _, q := range wPos {
+					if q != p {
+						vals[q] = c15Vals[q][c15KInt]
+					}
+				}
+				visit(vals)
+			}
+		}
+	}
+	// C
+	if len(oPos) > 0 {
+		for _, k := range []int{c15KInt, c15KNil, c15KSafeErr} {
+			reset()
+			for _, p := range oPos {
+				vals[p] = c15Vals[p][k]
+			}
+			visit(vals)
+		}
+	}
+}
+
+// c15Formats visits the sequence prefix and every extension of it up to maxLen pieces (indexes into
+// c15Pieces); with only=true just the prefix itself.
+func c15Formats(prefix []int, maxLen int, only bool, visit func(seq []int)) int {
+	count := 0
+	seq := make([]int, len(prefix), maxLen+1)
+	copy(seq, prefix)
+	var rec func()
+	rec = func() {
+		count++
+		visit(seq)
+		if only || len(seq) >= maxLen {
+			return
+		}
+		for pi := range c15Pieces {
+			seq = append(seq, pi)
+			rec()
+			seq = seq[:len(seq)-1]
+		}
+	}
+	rec()
+	return count
+}
+
+func c15Build(seq []int) (format, refFormat string) {
+	var a, b strings.Builder
+	first := true
+	for _, pi := range seq {
+		pc := &c15Pieces[pi]
+		a.WriteString(pc.text)
+		if pc.isW && first {
+			first = false
+			b.WriteString(pc.vText)
+		} else {
+			b.WriteString(pc.text)
+		}
+	}
+	return a.String(), b.String()
+}
+
+func c15SameSlots(a, b []int) bool {
+	for i := range a {
+		if a[i] != b[i] {
+			return false
+		}
+	}
+	return true
+}
+
+// c15RunPrefix enumerates formats (prefix and its extensions) x list lengths x operand lists and returns the
+// number of formats.
+func c15RunPrefix(c *c15Checker, prefix []int, only bool, maxLen int, lengths []int, kinds []int) int {
+	slots := make([]int, maxLen+1)
+	prev := make([]int, maxLen+1)
+	return c15Formats(prefix, maxLen, only, func(seq []int) {
+		if c.stop() {
+			return
+		}
+		format, refFormat := c15Build(seq)
+		sl, pv := slots[:len(seq)], prev[:len(seq)]
+		for li, n := range lengths {
+			c15Slots(seq, n, sl)
+			// a longer list that designates exactly the same operands adds nothing (beyond n = 1, which
+			// is kept for the "extra operands" report of formats that take no operand)
+			if li > 0 && n > 1 && c15SameSlots(sl, pv) {
+				continue
+			}
+			copy(pv, sl)
+			c15Lists(seq, sl, n, kinds, func(vals []c15Val) { c.check(seq, sl, format, refFormat, vals) })
+		}
+	})
+}
+
+// c15Run enumerates all formats of at most maxLen pieces. Without a hook the work is split by the first two
+// pieces over the available CPUs (HelperForErrorf is safe for concurrent use; every worker has its own
+// counters); with the hook installed it runs on one goroutine (the hook counts its calls in a global).
+func c15Run(t *testing.T, hook bool, maxLen int, lengths []int, kinds []int) (*c15Stats, int) {
+	var nfail int32
+	total := &c15Stats{}
+	if hook || maxLen < 3 {
+		c := &c15Checker{t: t, st: total, hook: hook, maxFail: 8, nfail: &nfail}
+		n := c15RunPrefix(c, nil, false, maxLen, lengths, kinds)
+		total.fails = int(nfail)
+		return total, n
+	}
+	type task struct {
+		prefix []int
+		only   bool
+	}
+	var tasks []task
+	tasks = append(tasks, task{nil, true})
+	for a := range c15Pieces {
+		tasks = append(tasks, task{[]int{a}, true})
+		for b := range c15Pieces {
+			tasks = append(tasks, task{[]int{a, b}, false})
+		}
+	}
+	ch := make(chan task)
+	var mu sync.Mutex
+	var wg sync.WaitGroup
+	nFormats := 0
+	for w := 0; w < runtime.GOMAXPROCS(0); w++ {
+		wg.Add(1)
+		go func() {
+			defer wg.Done()
+			st := &c15Stats{}
+			c := &c15Checker{t: t, st: st, maxFail: 8, nfail: &nfail}
+			n := 0
+			for tk := range ch {
+				n += c15RunPrefix(c, tk.prefix, tk.only, maxLen, lengths, kinds)
+			}
+			mu.Lock()
+			total.add(st)
+			nFormats += n
+			mu.Unlock()
+		}()
+	}
+	for _, tk := range tasks {
+		ch <- tk
+	}
+	close(ch)
+	wg.Wait()
+	total.fails = int(nfail)
+	return total, nFormats
+}
+
+var c15AllKinds = []int{c15KCustom, c15KSF, c15KTypedNil, c15KValErr, c15KSafeErr, c15KUnsafeErr, c15KNil, c15KString,
+	c15KSafeInt, c15KUnsafeCustom, c15KSafeNil}
+
+func TestVerifBoundedC15(t *testing.T) {
+	maxLen := 4
+	if os.Getenv("VERIF_TIER") == "thorough" {
+		maxLen = 5
+	}
+	lengths := []int{0, 1, 2, 3, 4, 5, 9}
+	if maxLen == 4 {
+		lengths = []int{0, 1, 2, 3, 4, 9}
+	}
+	defer RegisterRedactErrorFn(nil) // the test binary starts without a hook
+	RegisterRedactErrorFn(nil)
+
+	st, nFormats := c15Run(t, false, maxLen, lengths, c15AllKinds)
+
+	// the same enumeration, one piece shorter, with an error hook installed
+	hst := &c15Stats{}
+	hFormats := 0
+	if st.fails == 0 {
+		RegisterRedactErrorFn(c15Hook)
+		hst, hFormats = c15Run(t, true, maxLen-1, lengths, c15AllKinds)
+		RegisterRedactErrorFn(nil)
+	}
+	ok := st.fails == 0 && hst.fails == 0
+
+	pieces := make([]string, len(c15Pieces))
+	for k, pc := range c15Pieces {
+		pieces[k] = pc.text
+	}
+	bound := fmt.Sprintf("all %d formats made of at most %d pieces over {%s}; operand lists of every length in %v that designates different operands; "+
+		"per list: every error/int assignment to the positions designated by %%w, plus each of %d further operand kinds "+
+		"(custom error with cause, error+SafeFormatter, typed nil error pointer, non-pointer error, Safe(err), Unsafe(err), nil, string, Safe(int), Unsafe(custom err), Safe(nil)) "+
+		"at each %%w position with the other %%w positions all errors / all ints, plus the non-%%w positions all int / all nil / all Safe(err)",
+		nFormats, maxLen, strings.Join(pieces, " "), lengths, len(c15AllKinds))
+	emit := func(law string, cases, nontrivial int, rule, bnd string, exhaustive bool) {
+		m, _ := json.Marshal(map[string]interface{}{"property": "C15", "law": law, "cases": cases, "nontrivial": nontrivial,
+			"nontrivial_rule": rule, "bound": bnd, "exhaustive": exhaustive})
+		fmt.Printf("BOUNDED: %s\n", m)
+	}
+	emit("returned error = operand of %w iff exactly one %w and its operand (possibly inside Safe/Unsafe) holds an error, else nil (identity comparison)",
+		st.cases, st.withW, fmt.Sprintf("the format contains at least one %%w (an error is expected back in %d of the cases)", st.captured), bound, ok)
+	emit("text = Sprintf of the format with the correctly used %w replaced by the same directive with verb v; every other %w reported as bad verb (count of %!w( reports)",
+		st.cases, st.withW, "the format contains at least one %w", bound, ok)
+	emit("formats with three or more %w directives return nil and report every %w after a correctly used first one as a bad verb",
+		st.manyW, st.manyWAllErr, "at least three of the %w directives designate operands that hold errors", bound, ok)
+	emit("for at most one %w: text with markers stripped = fmt.Errorf(format, operands without Safe/Unsafe).Error() and returned error = its Unwrap()",
+		st.errfCases, st.errfOneW, "the format contains exactly one %w",
+		bound+fmt.Sprintf("; restricted to formats with at most one %%w; %d inputs (%%+w designating an int: library prints %%!w(int=+103), fmt.Errorf of Go >= 1.20 prints %%!w(int=103)) skipped as a known divergence", st.errfSkipped), ok)
+	emit("with an error hook registered (RegisterRedactErrorFn; the hook prints causes through a nested Printf and itself calls HelperForErrorf) the returned error and the text/Sprintf agreement are unchanged",
+		hst.cases, hst.hookActive, "the hook ran during the call and an error is expected back",
+		fmt.Sprintf("the same enumeration over the %d formats of at most %d pieces", hFormats, maxLen-1), ok && hFormats > 0)
+}
+
+// ---------------------------------------------------------------------------------------------------
+// replay / quick search
 
 func TestVerifReplayC15(t *testing.T) {
 	e1, e2 := errors.New("e1"), errors.New("e2")
@@ -31,7 +695,9 @@ func TestVerifReplayC15(t *testing.T) {
 	dirs := []directive{{"%w", true, 1}, {"%v", false, 1}, {"%d", false, 1}, {"%5w", true, 1}, {"%-w", true, 1}}
 	fails := 0
 	fail := func(call string, got, want error, text string) {
-		m, _ := json.Marshal(map[string]string{"property": "C15", "call": call, "returned_error": fmt.Sprint(got), "expected_error": fmt.Sprint(want), "text": text})
+		why := "exactly one %w with an operand holding an error returns that error; every other case returns nil"
+		m, _ := json.Marshal(map[string]string{"property": "C15", "call": call, "returned_error": fmt.Sprint(got), "expected_error": fmt.Sprint(want), "text": text,
+			"output": fmt.Sprintf("(%q, %s)", text, c15ErrText(got)), "why": why + "; expected " + c15ErrText(want)})
 		fmt.Printf("REPLAY-FAIL: %s\n", m)
 		t.Errorf("%s: returned %v, want %v", call, got, want)
 		fails++
@@ -43,6 +709,23 @@ func TestVerifReplayC15(t *testing.T) {
 		s, err := HelperForErrorf(format, args...)
 		if err != want {
 			fail(fmt.Sprintf("HelperForErrorf(%q, %v)", format, names), err, want, string(s))
+		}
+	}
+	// a format given by the solver model / the caller: REPLAY_HINTS {"format": "..."} is run through the
+	// bounded oracle when it is made of known pieces (other keys are ignored)
+	var hints map[string]interface{}
+	_ = json.Unmarshal([]byte(os.Getenv("REPLAY_HINTS")), &hints)
+	if f, ok := hints["format"].(string); ok {
+		if seq, ok := c15Parse(f); ok {
+			var nf int32
+			c := &c15Checker{t: t, st: &c15Stats{}, maxFail: 10, nfail: &nf}
+			slots := make([]int, len(seq))
+			format, refFormat := c15Build(seq)
+			for _, n := range []int{0, 1, 2, 3, 4, 5, 9} {
+				c15Slots(seq, n, slots)
+				c15Lists(seq, slots, n, c15AllKinds, func(vals []c15Val) { c.check(seq, slots, format, refFormat, vals) })
+			}
+			fails += int(nf)
 		}
 	}
 	// one and two directives, all operand combinations
@@ -76,10 +759,51 @@ func TestVerifReplayC15(t *testing.T) {
 			}
 		}
 	}
+	// three and four %w (with other directives in between): never an error
+	wdirs := []string{"%w", "%5w", "%[1]w", "%[2]w", "%[3]w"}
+	for _, a := range wdirs {
+		for _, b := range wdirs {
+			for _, c := range wdirs {
+				for _, o1 := range ops[:5] {
+					for _, o2 := range ops[:5] {
+						for _, o3 := range ops[:5] {
+							args := []interface{}{o1.v, o2.v, o3.v}
+							names := []string{o1.name, o2.name, o3.name}
+							check(a+"|"+b+"|"+c, args, names, nil)
+						}
+					}
+				}
+				check(a+" %v "+b+" %d "+c+" %w", []interface{}{e1, e2, e1, e2, e1, e2}, []string{"err", "err2", "err", "err2", "err", "err2"}, nil)
+			}
+		}
+	}
 	// missing operands and bad indexes
 	check("%w %w", []interface{}{e1}, []string{"err"}, nil)
 	check("%w %[5]w", []interface{}{e1}, []string{"err"}, nil)
 	check("%[5]w %w", []interface{}{e1}, []string{"err"}, nil)
 	check("%[1]w %[1]w", []interface{}{e1}, []string{"err"}, nil)
 	check("%w", nil, nil, nil)
+	// the bounded oracle (error, text, fmt.Errorf) on every format of at most 3 pieces
+	if fails == 0 {
+		var nf int32
+		c15RunPrefix(&c15Checker{t: t, st: &c15Stats{}, maxFail: 10, nfail: &nf}, nil, false, 3, []int{0, 1, 2, 3, 9}, c15AllKinds)
+	}
+}
+
+// c15Parse splits a format into pieces of c15Pieces (longest match first); ok is false for other formats.
+func c15Parse(f string) (seq []int, ok bool) {
+	for len(f) > 0 {
+		best := -1
+		for pi, pc := range c15Pieces {
+			if strings.HasPrefix(f, pc.text) && (best < 0 || len(pc.text) > len(c15Pieces[best].text)) {
+				best = pi
+			}
+		}
+		if best < 0 {
+			return nil, false
+		}
+		seq = append(seq, best)
+		f = f[len(c15Pieces[best].text):]
+	}
+	return seq, true
 }
